@@ -204,6 +204,18 @@ def order_lemma(sym):
 
 
 def harnesses(tier):
+    hs = _harnesses(tier)
+    if tier != "quick":
+        from .xh_common import second_engine
+        for f in ("single_loop_covers", "aggregate_loop_covers"):
+            hs.append(Harness("c01-crosshair-" + f.split("_")[0], second_engine(f, ["n"]), mode="unit", frontier=1, budget_s=600, twin_paths=1,
+                              conformance=0, what="second, independent engine: CrossHair on the real chunk loop (%s), 0 <= n <= 8 MiB+1; "
+                                                  "a refutation is replayed concretely; 'not confirmed' is only noted" % f,
+                              bounds={"n": "0..8 MiB+1", "per-condition timeout": "60 s"}, outside=[]))
+    return hs
+
+
+def _harnesses(tier):
     quick = tier == "quick"
     max_n = (3 if quick else 16) * MIB + 1
     subs = [["md5"], ["c4", "xxh64"], ["xxh32", "sha1", "xxh3"], LIB7] if quick else "all"
